@@ -350,6 +350,8 @@ class PassWorld(World):
                     return fn_(p0[len(prefix):], args)
             if p0 in ("Ok", "Err") and len(e["args"]) == 1:
                 return S(p0, self.eval(e["args"][0], env, uses))
+            if p0 in ("std::iter::repeat", "iter::repeat", "repeat", "core::iter::repeat") and len(e["args"]) == 1 and p0 not in self.free:
+                return ("REPEAT", self.eval(e["args"][0], env, uses))
             if p0 in ("Box::new", "Rc::new", "Arc::new", "std::boxed::Box::new") and len(e["args"]) == 1:
                 return self.eval(e["args"][0], env, uses)  # a box is its content
         if k == "Cast":
@@ -860,6 +862,15 @@ class PassWorld(World):
                 return recv
             if isinstance(recv, int) and not isinstance(recv, bool) and m in ("to_string", "clone") and not e["args"]:
                 return str(recv) if m == "to_string" else recv
+            if isinstance(recv, int) and not isinstance(recv, bool) and m in ("saturating_sub", "saturating_add", "min", "max", "abs_diff", "wrapping_add") and len(e["args"]) == 1:
+                b_ = self.eval(e["args"][0], env, uses)
+                if isinstance(b_, int) and not isinstance(b_, bool):
+                    return {"saturating_sub": max(0, recv - b_), "saturating_add": recv + b_, "min": min(recv, b_), "max": max(recv, b_), "abs_diff": abs(recv - b_), "wrapping_add": recv + b_}[m]
+            if isinstance(recv, tuple) and recv and recv[0] == "REPEAT" and m == "take" and len(e["args"]) == 1:
+                n_ = self.eval(e["args"][0], env, uses)
+                if isinstance(n_, int) and not isinstance(n_, bool) and 0 <= n_ <= 100000:
+                    return Iter([recv[1]] * n_)
+                raise Unsupported("repeat(..).take(%r)" % (n_,))
             # evaluate with the receiver already computed: rebuild a node whose receiver is a bound name
             env2 = dict(env)
             env2["__recv"] = recv
@@ -917,6 +928,36 @@ class PassWorld(World):
                     break
             return ("T", ())
         if k == "For":
+            # `for x in &mut v` / `for x in v.iter_mut()` over a vector: `*x = ..` writes the element
+            it0 = e["iter"]
+            while it0["k"] == "Paren":
+                it0 = it0["e"]
+            mut_src = None
+            if it0["k"] == "Ref" and it0.get("mut"):
+                mut_src = it0["e"]
+            elif it0["k"] == "MethodCall" and it0["method"] == "iter_mut" and not it0["args"]:
+                mut_src = it0["recv"]
+            if mut_src is not None and e["pat"]["k"] == "PIdent" and e["pat"].get("sub") is None:
+                src_ = self.eval(mut_src, env, uses)
+                if isinstance(src_, Sink):
+                    nm_ = e["pat"]["name"]
+                    for i_ in range(len(src_.items)):
+                        env2 = dict(env)
+                        env2[nm_] = src_.items[i_]
+                        env2["&" + nm_] = (src_.items, i_)
+                        try:
+                            self.eval(e["body"], env2, uses)
+                        except ContinueEx:
+                            pass
+                        except BreakEx:
+                            for k_ in env:
+                                if k_ != nm_ and k_ in env2:
+                                    env[k_] = env2[k_]
+                            break
+                        for k_ in env:
+                            if k_ != nm_ and k_ in env2:
+                                env[k_] = env2[k_]
+                    return ("T", ())
             itv = self.eval(e["iter"], env, uses)
             if isinstance(itv, (Sink, MSet_types())):
                 itv = Iter(list(itv.items))
